@@ -23,6 +23,7 @@ amplitude T₀ = B^{1/(β+3)},
 import EPV.Gen.Cog13D
 import EPV.Spec.Euler1D
 import EPV.Lemmas.Euler1Db
+import EPV.Lemmas.HydroRobust
 import EPV.Tactics
 
 set_option linter.all false
@@ -39,26 +40,20 @@ theorem cog13_leaves : Cog13.okLeaves = [1] := rfl
 theorem cog13_mass (p : Cog13.P) (r t : ℝ) (hr : 0 < r) (ht : 0 < t) :
     massRes (Cog13.L1.density p) (Cog13.L1.velocity p) (p.geometry - 1) r t = 0 := by
   unfold massRes dr dt
-  rw [(Cog13.L1.density_hasDerivAt_t p r t ht).deriv, (Cog13.L1.density_hasDerivAt_r p r t hr).deriv,
-    (Cog13.L1.velocity_hasDerivAt_r p r t).deriv]
+  epv_hydro_rw_derivs [Cog13.L1.density_hasDerivAt_t p r t, Cog13.L1.density_hasDerivAt_r p r t,
+    Cog13.L1.velocity_hasDerivAt_r p r t]
   simp only [epv_deriv, epv_leaf]
-  have hr' := hr.ne'
-  have ht' := ht.ne'
-  field_simp
+  epv_hydro_field_simp
   ring
 
 theorem cog13_momentum (p : Cog13.P) (r t : ℝ) (hr : 0 < r) (ht : 0 < t) (hρ : p.rho0 ≠ 0)
     (hab : p.alpha - p.beta - 4 ≠ 0) :
     momResT (Cog13.L1.density p) (Cog13.L1.velocity p) (Cog13.L1.temperature p) p.Gamma r t = 0 := by
   unfold momResT dr dt
-  rw [(Cog13.L1.velocity_hasDerivAt_t p r t ht.ne').deriv, (Cog13.L1.velocity_hasDerivAt_r p r t).deriv,
-    (Cog13.L1.density_hasDerivAt_r p r t hr).deriv, (Cog13.L1.temperature_hasDerivAt_r p r t hr).deriv]
+  epv_hydro_rw_derivs [Cog13.L1.velocity_hasDerivAt_t p r t, Cog13.L1.velocity_hasDerivAt_r p r t,
+    Cog13.L1.density_hasDerivAt_r p r t, Cog13.L1.temperature_hasDerivAt_r p r t]
   simp only [epv_deriv, epv_leaf]
-  have h1 := Real.rpow_pos_of_pos hr ((2 : ℝ) / ((p.alpha - p.beta) - 4))
-  have h2 := Real.rpow_pos_of_pos ht (((-((2 : ℝ) / ((p.alpha - p.beta) - 4))) - (p.geometry - 1)) - 1)
-  have hr' := hr.ne'
-  have ht' := ht.ne'
-  field_simp
+  epv_hydro_field_simp
   ring
 
 /-- the energy residual of the coded solution in closed form -/
@@ -87,18 +82,18 @@ theorem cog13_energy_residual (p : Cog13.P) (r t : ℝ) (hwd : Cog13.L1.WellDefi
       = (((((p.alpha * ((p.geometry - 1) + 1)) - (p.geometry - 1)) - 2) / (p.beta + 3)) + ((((2 : ℝ) * (p.alpha - 1)) / (p.beta + 3)) / ((p.alpha - p.beta) - 4)))
           * Cog13.L1.temperature p r t / t := by
     unfold dt
-    rw [(Cog13.L1.temperature_hasDerivAt_t p r t ht).deriv]
+    epv_hydro_rw_derivs [Cog13.L1.temperature_hasDerivAt_t p r t]
     simp only [epv_deriv, epv_leaf]
     ring
   have hTr : dr (Cog13.L1.temperature p) r t
       = (-((2 : ℝ) / ((p.alpha - p.beta) - 4))) * Cog13.L1.temperature p r t / r := by
     unfold dr
-    rw [(Cog13.L1.temperature_hasDerivAt_r p r t hr).deriv]
+    epv_hydro_rw_derivs [Cog13.L1.temperature_hasDerivAt_r p r t]
     simp only [epv_deriv, epv_leaf]
     ring
   have hur : dr (Cog13.L1.velocity p) r t = 1 / t := by
     unfold dr
-    rw [(Cog13.L1.velocity_hasDerivAt_r p r t).deriv]
+    epv_hydro_rw_derivs [Cog13.L1.velocity_hasDerivAt_r p r t]
     simp only [epv_deriv]
     ring
   have hu : Cog13.L1.velocity p r t = r / t := by simp only [epv_leaf]; ring
